@@ -153,7 +153,11 @@ MInit(mode) == [
   resetClean |-> FALSE,  \* a reset returned ok and no scan has returned since: the archive must be empty
   pin |-> {},            \* endpoint operations called and not yet returned, as <<side, op>> (the loop is inside them)
   mc |-> 0,              \* complete cycles since the endpoints were last connected (SuccessfulCycles)
-  rerr |-> FALSE         \* the last scan of this connection asked to be tried again (LastError is set)
+  rerr |-> FALSE,        \* the last scan of this connection asked to be tried again (LastError is set)
+  want |-> "any",        \* what the loop must do next: "scan" after a try-again scan or a missing-files cycle
+  forced |-> FALSE,      \* the cycle in progress is such a forced re-cycle after missing files
+  missed |-> FALSE,      \* a transition of the cycle in progress missed staged files
+  rcok |-> 0, rcdrift |-> 0   \* forced re-scans seen / polls seen where a re-scan was due (conformance)
 ]
 
 InflKinds(m, K) == {x \in m.infl : x.kind \in K}
@@ -250,6 +254,19 @@ MOp(m, o) ==
                        ELSE IF o.op \in PinnedOps THEN (IF isCall THEN @ \cup {<<o.side, o.op>>} ELSE @ \ {<<o.side, o.op>>})
                        ELSE @,
                !.mc = IF o.op = "Connect" THEN 0 ELSE IF endsOld THEN @ + 1 ELSE @,
+               \* scan retry / missing-files re-cycle (synchronize: skipPolling for exactly one iteration)
+               !.missed = IF o.op \in {"Connect", "Shutdown"} \/ newCycle THEN FALSE
+                          ELSE @ \/ (o.op = "Transition" /\ ~isCall /\ o.res = "missing"),
+               !.forced = IF o.op \in {"Connect", "Shutdown"} THEN FALSE
+                          ELSE IF newCycle THEN (m.want = "scan" /\ m.missed) ELSE @,
+               !.want = IF o.op \in {"Connect", "Shutdown"} THEN "any"
+                        ELSE IF o.op = "Scan" /\ ~isCall /\ o.res = "again" THEN "scan"
+                        ELSE IF endsOld /\ m.missed /\ ~m.forced /\ ~newCycle THEN "any"      \* a poll came instead (drift)
+                        ELSE IF o.op = "Transition" /\ ~isCall /\ o.res = "missing" /\ ~m.forced THEN "scan"
+                        ELSE IF newCycle \/ (o.op = "Poll" /\ isCall) THEN "any"
+                        ELSE @,
+               !.rcok = IF newCycle /\ m.want = "scan" THEN @ + 1 ELSE @,
+               !.rcdrift = IF o.op = "Poll" /\ isCall /\ m.want = "scan" THEN @ + 1 ELSE @,
                !.rerr = IF o.op = "Connect" THEN FALSE
                         ELSE IF o.op = "Scan" /\ ~isCall /\ o.res = "again" THEN TRUE
                         ELSE IF c.ph = "scanning" /\ c2.ph = "scanned" THEN FALSE
